@@ -1,6 +1,7 @@
 import XzVerif.Proofs.Lzma2RoundTrip
 import XzVerif.Proofs.Chunk
 import XzVerif.Proofs.Writer2
+import XzVerif.Proofs.HashTable
 /-
   C08 — LZMA2 writer: lossless for any call history; Flush yields a decodable prefix.
 
@@ -31,6 +32,19 @@ import XzVerif.Proofs.Writer2
     content is the accepted data — this is what the three decode theorems rest on, via
     `C08_chunks_roundtrip` (L4: every well-formed chunk list round-trips).
   `C08_writer_sequences_legal` (Props/C16): the chunk-type bookkeeping only produces legal sequences.
+
+  **With the HashTable4 model, no hypothesis about the match finder is left.**  `Model/HashTable.lean` models the
+  default match finder completely (rolling hash, hash chains, candidate list, ring-level verification of every
+  candidate); with it the Lean writer model computes the compressed stream from the input alone, and the
+  correspondence check compares that stream byte for byte with the real writer's (C08 quick tier: 350+ call
+  histories).  `Proofs/HashTable.lean` proves that this match finder keeps itself in sync with the dictionary and
+  only makes applicable proposals (`W2.MatcherInv`), so:
+  * `C08_hashtable4_never_fails`, `C08_hashtable4_close_decodes`, `C08_hashtable4_flush_prefix_decodes`: for every
+    valid configuration and **every** call history of the LZMA2 writer model with the HashTable4 model, no call
+    fails, the closed stream decodes (strict rules and Go rules) to exactly the data written, and after every Flush
+    the sink plus end marker decodes to exactly the data written so far.
+  The same theorems are available for every match finder that satisfies `MatcherInv` (`C08_*_I`), e.g. any
+  candidate search combined with the ring-level verification of Model/Select.lean.
 
   **Not proved** (hence still `partial`): that HashTable4 and BinaryTree satisfy `MatcherOk` (their
   candidate verification via `buffer.matchLen` is proved sound at ring level in Proofs/Ring.lean; the
@@ -111,6 +125,42 @@ theorem C08_refines {σ : Type} (strict : Bool) (c : Cfg) (hc : CfgOk c) (M : Ma
     (w.chunks.foldl emitChunk (e0 c.dictCap)).h.out = w.hist.extract 0 w.start ∧
     w.hist ++ w.look = payload calls :=
   W2.run_refines strict c hc M hM m0 calls hnc hok
+
+/-! ### unconditional for the HashTable4 model -/
+
+open W2 in
+theorem C08_hashtable4_never_fails (c : Cfg) (hc : CfgOk c) (calls : List Call)
+    (hnc : ∀ call ∈ calls, ¬ (call matches .close)) (call : Call) :
+    allOk (run c HT.HT4 (init c (HT.St.new c.dictCap c.bufSize)) (calls ++ [call])).2 :=
+  W2.no_error_of_margin_I (by decide) c hc HT.HT4 (HT.Synced c) (HT.ht4_matcherInv c) _ (HT.synced_new c) calls hnc call
+
+open W2 in
+theorem C08_hashtable4_close_decodes (strict : Bool) (c : Cfg) (hc : CfgOk c) (calls : List Call)
+    (hnc : ∀ call ∈ calls, ¬ (call matches .close)) :
+    let w := (run c HT.HT4 (init c (HT.St.new c.dictCap c.bufSize)) (calls ++ [.close])).1
+    ∃ r, decode strict c.dictCap w.out 0 ByteArray.empty = (r, .eof) ∧
+      r.h.out = payload calls ∧ r.pos = w.out.size ∧ r.seq = .ended :=
+  W2.close_decodes_I strict c hc HT.HT4 (HT.Synced c) (HT.ht4_matcherInv c) _ (HT.synced_new c) calls hnc
+    (C08_hashtable4_never_fails c hc calls hnc .close)
+
+open W2 in
+theorem C08_hashtable4_flush_prefix_decodes (strict : Bool) (c : Cfg) (hc : CfgOk c) (calls : List Call)
+    (hnc : ∀ call ∈ calls, ¬ (call matches .close)) :
+    let w := (run c HT.HT4 (init c (HT.St.new c.dictCap c.bufSize)) (calls ++ [.flush])).1
+    ∃ r, decode strict c.dictCap (w.out.push 0) 0 ByteArray.empty = (r, .eof) ∧
+      r.h.out = payload calls ∧ r.pos = w.out.size + 1 :=
+  W2.flush_prefix_decodes_I strict c hc HT.HT4 (HT.Synced c) (HT.ht4_matcherInv c) _ (HT.synced_new c) calls hnc
+    (C08_hashtable4_never_fails c hc calls hnc .flush)
+
+/-- the same three statements for every self-synchronising match finder -/
+theorem C08_close_decodes_I {σ : Type} (strict : Bool) (c : W2.Cfg) (hc : W2.CfgOk c) (M : W2.Matcher σ)
+    (I : σ → ByteArray → ByteArray → Prop) (hI : W2.MatcherInv c M I) (m0 : σ) (h0 : I m0 ByteArray.empty ByteArray.empty)
+    (calls : List W2.Call) (hnc : ∀ call ∈ calls, ¬ (call matches .close)) :
+    let w := (W2.run c M (W2.init c m0) (calls ++ [.close])).1
+    ∃ r, decode strict c.dictCap w.out 0 ByteArray.empty = (r, .eof) ∧
+      r.h.out = W2.payload calls ∧ r.pos = w.out.size ∧ r.seq = .ended :=
+  W2.close_decodes_I strict c hc M I hI m0 h0 calls hnc
+    (W2.no_error_of_margin_I (by decide) c hc M I hI m0 h0 calls hnc .close)
 
 /-- the hypotheses are satisfiable: the default configuration is valid and the literal-only match finder
     (always proposes the next byte) is applicable -/
